@@ -152,6 +152,58 @@ pub enum InterpolateError {
 ///  - Types should be annotated to ensure type inference does not break
 /// the contract by accident
 unsafe fn cast_unchecked<A, B>(a: A) -> B {
+    #[cfg(ndarray_interp_verif)]
+    verif::record_cast::<A, B>();
     let ptr = &*ManuallyDrop::new(a) as *const A as *const B;
     unsafe { ptr.read() }
+}
+
+/// Instrumentation for the external verification harness (compiled only with
+/// `--cfg ndarray_interp_verif`).
+#[cfg(ndarray_interp_verif)]
+pub mod verif {
+    use std::cell::{Cell, RefCell};
+
+    thread_local! {
+        static CASTS: Cell<usize> = const { Cell::new(0) };
+        static CAST_LOG: RefCell<Vec<(String, String)>> = const { RefCell::new(Vec::new()) };
+        static GUESS: Cell<Option<usize>> = const { Cell::new(None) };
+    }
+
+    /// called at the top of `cast_unchecked`: counts the cast, logs both type names and
+    /// refuses (panics, before any read happens) if the two types differ
+    pub(crate) fn record_cast<A, B>() {
+        let a = std::any::type_name::<A>();
+        let b = std::any::type_name::<B>();
+        CASTS.with(|c| c.set(c.get() + 1));
+        CAST_LOG.with(|l| l.borrow_mut().push((a.to_string(), b.to_string())));
+        assert_eq!(a, b, "cast_unchecked between different types");
+        assert_eq!(std::mem::size_of::<A>(), std::mem::size_of::<B>());
+        assert_eq!(std::mem::align_of::<A>(), std::mem::align_of::<B>());
+    }
+
+    /// number of `cast_unchecked` calls on this thread since the last [`reset`]
+    pub fn cast_count() -> usize {
+        CASTS.with(|c| c.get())
+    }
+
+    /// (source type, destination type) of every cast since the last [`reset`]
+    pub fn cast_log() -> Vec<(String, String)> {
+        CAST_LOG.with(|l| l.borrow().clone())
+    }
+
+    pub(crate) fn record_guess(i: usize) {
+        GUESS.with(|g| g.set(Some(i)));
+    }
+
+    /// the index the O(1) estimate of `get_lower_index` produced in its last call, if it ran
+    pub fn last_guess() -> Option<usize> {
+        GUESS.with(|g| g.get())
+    }
+
+    pub fn reset() {
+        CASTS.with(|c| c.set(0));
+        CAST_LOG.with(|l| l.borrow_mut().clear());
+        GUESS.with(|g| g.set(None));
+    }
 }
